@@ -19,7 +19,7 @@
            (s (string-map (lambda (c) (if (or (char=? c #\space) (char=? c #\newline)) #\_ c)) s)))
       (if (equal? s "") "?" s))))
 
-(define (spans m)
+(define (spans m s)
   (if (not m)
       "-"
       (let ((o (open-output-string)))
@@ -28,9 +28,17 @@
               (let ((a (regexp-match-submatch-start m i))
                     (b (regexp-match-submatch-end m i)))
                 (if (> i 0) (write-char #\, o))
-                (if (and a b)
-                    (begin (write a o) (write-char #\- o) (write b o))
-                    (write-char #\x o))
+                (cond
+                 ((and a b)
+                  ;; the text accessor must agree with the indices
+                  (if (not (and (<= 0 a b (string-length s))
+                                (equal? (regexp-match-submatch m i) (substring s a b))))
+                      (error "submatch-text-differs-from-indices" i))
+                  (write a o) (write-char #\- o) (write b o))
+                 (else
+                  (if (or a b (regexp-match-submatch m i))
+                      (error "submatch-half-set" i))
+                  (write-char #\x o)))
                 (lp (+ i 1)))))
         (get-output-string o))))
 
@@ -124,9 +132,9 @@
           (for-each
            (lambda (s)
              (write-string " M")
-             (write-string (guard (e (#t (string-append "!" (msg-of e)))) (spans (regexp-matches rx s))))
+             (write-string (guard (e (#t (string-append "!" (msg-of e)))) (spans (regexp-matches rx s) s)))
              (write-string ";S")
-             (write-string (guard (e (#t (string-append "!" (msg-of e)))) (spans (regexp-search rx s)))))
+             (write-string (guard (e (#t (string-append "!" (msg-of e)))) (spans (regexp-search rx s) s))))
            (cddr c)))))))
     (newline)))
 
